@@ -25,10 +25,13 @@ import (
 //         F<a>  the oldest blocked Dial(<a>) call fails
 //         D<k>  Disconnect(id) of the (k mod open)-th oldest open connection
 //         Z     Disconnect(id) once more for the most recently disconnected id
+//         C     (target 1 only) Disconnect(id) of the one request that is in flight - a cancel; with
+//               target 1 requests exist one at a time and the id of the live one is the number of
+//               GetNewAddress calls so far.  A canceled request ends silently at its next step.
 // Every callback of a connection request blocks until the script releases it, so between two
 // script events the manager is quiescent: each of its requests sits in GetNewAddress or in Dial.
 // After an event the harness waits (bounded) for the reaction the protocol owes (a Dial call, an
-// OnConnection call, a new GetNewAddress call or a BanAddress call).
+// OnConnection call, a new GetNewAddress call).
 //
 // observable: "<tag>:o<open connections>/w<blocked GetNewAddress calls>/d<addr:blocked dials,..>
 // /n<Dial calls so far>/b<BanAddress calls so far>" per event, preceded by the state after Start
@@ -274,11 +277,26 @@ func c18RunCm(head []string, evs []string) (obs string) {
 		defer f.mu.Unlock()
 		return f.getCalls, f.dialCalls, f.onConn, f.bans, f.closes
 	}
+	canceledLive := false // the one live request (target 1) was canceled by the script
 	for _, e := range evs {
 		tag := "?"
-		g0, d0, o0, b0, c0 := snap()
+		g0, d0, o0, _, c0 := snap()
 		okw := true
 		switch {
+		case e == "C":
+			f.mu.Lock()
+			inflight := len(f.getWait) + len(f.dialWait)
+			id := uint64(f.getCalls)
+			f.mu.Unlock()
+			if target != 1 || inflight != 1 {
+				tag = "-"
+				break
+			}
+			f.cm.Disconnect(id)
+			// barrier: once the handler has taken a second message it has finished the first
+			f.cm.Disconnect(1 << 62)
+			canceledLive = true
+			tag = "C"
 		case len(e) >= 2 && e[0] == 'G':
 			a, err := strconv.Atoi(e[1:])
 			if err != nil || a < 0 || a > 250 {
@@ -290,7 +308,12 @@ func c18RunCm(head []string, evs []string) (obs string) {
 				break
 			}
 			ch <- c18GetReply{addr: c18AddrName(a)}
-			okw = f.wait(func() bool { return f.dialCalls > d0 }, c18CmBound)
+			if canceledLive {
+				canceledLive = false // Connect sees ConnCanceled and returns without dialling
+				time.Sleep(2 * time.Millisecond)
+			} else {
+				okw = f.wait(func() bool { return f.dialCalls > d0 }, c18CmBound)
+			}
 			tag = "G"
 		case e == "E":
 			ch := popGet()
@@ -299,7 +322,12 @@ func c18RunCm(head []string, evs []string) (obs string) {
 				break
 			}
 			ch <- c18GetReply{err: errors.New("no valid connect address")}
-			okw = f.wait(func() bool { return f.getCalls > g0 }, c18CmBound)
+			if canceledLive {
+				canceledLive = false // handleFailed for a canceled request is ignored
+				time.Sleep(2 * time.Millisecond)
+			} else {
+				okw = f.wait(func() bool { return f.getCalls > g0 }, c18CmBound)
+			}
 			tag = "E"
 		case len(e) >= 2 && (e[0] == 'K' || e[0] == 'F'):
 			a, err := strconv.Atoi(e[1:])
@@ -313,11 +341,21 @@ func c18RunCm(head []string, evs []string) (obs string) {
 			}
 			if e[0] == 'K' {
 				w.reply <- true
-				okw = f.wait(func() bool { return f.onConn > o0 }, c18CmBound)
+				if canceledLive {
+					canceledLive = false // the connection of a canceled request is closed, not reported
+					okw = f.wait(func() bool { return f.closes > c0 }, c18CmBound)
+				} else {
+					okw = f.wait(func() bool { return f.onConn > o0 }, c18CmBound)
+				}
 				tag = "K"
 			} else {
 				w.reply <- false
-				okw = f.wait(func() bool { return f.getCalls+f.bans > g0+b0 }, c18CmBound)
+				if canceledLive {
+					canceledLive = false
+					time.Sleep(2 * time.Millisecond)
+				} else {
+					okw = f.wait(func() bool { return f.getCalls > g0 }, c18CmBound)
+				}
 				tag = "F"
 			}
 		case len(e) >= 2 && e[0] == 'D':
@@ -340,7 +378,7 @@ func c18RunCm(head []string, evs []string) (obs string) {
 			c := open[k%len(open)]
 			f.cm.Disconnect(c.id)
 			f.lastDisc, f.hasDisc = c.id, true
-			okw = f.wait(func() bool { return f.closes > c0 && f.getCalls+f.bans > g0+b0 }, c18CmBound)
+			okw = f.wait(func() bool { return f.closes > c0 && f.getCalls > g0 }, c18CmBound)
 			tag = "D"
 		case e == "Z":
 			if !f.hasDisc {
@@ -438,6 +476,19 @@ func c18GenCm(c *Ctx) error {
 		}
 		evs = append(evs, script(5+c.Rng.Intn(20), 4, 0.1, 0.1, 0.0)...)
 		emit(t, evs, "refusals")
+	}
+	// cancel: Disconnect of the request in flight (target 1), while it waits for an address or dials
+	for i, n := 0, c.Pick(60, 1200); i < n; i++ {
+		evs := script(c.Rng.Intn(12), 3, 0.3, 0.2, 0.1)
+		if c.Rng.Intn(2) == 0 {
+			evs = append(evs, fmt.Sprintf("G%d", c.Rng.Intn(3)))
+		}
+		evs = append(evs, "C")
+		if c.Rng.Intn(4) == 0 {
+			evs = append(evs, "C")
+		}
+		evs = append(evs, script(2+c.Rng.Intn(6), 3, 0.4, 0.1, 0.2)...)
+		emit(1, evs, "cancel")
 	}
 	for i, n := 0, c.Pick(20, 400); i < n; i++ {
 		t := 1 + c.Rng.Intn(8)
